@@ -13,7 +13,7 @@ use iroh_docs::{
 };
 use serde::{Deserialize, Serialize};
 
-use crate::{c02::gen_key, common::*, world::*};
+use crate::{c02::gen_key, common::*, syncmsg::*, world::*};
 
 #[derive(Clone, Debug, Serialize, Deserialize)]
 pub enum Req {
@@ -27,6 +27,9 @@ pub enum Req {
     GetExact { n: usize, a: usize, key: Vec<u8>, incl: bool },
     GetMany { n: usize },
     SyncInit { n: usize },
+    /// a reconciliation message: kind 0 = one item part over the whole document carrying one
+    /// entry (have_local = false), kind 1 = the empty fingerprint over the whole document
+    SyncProc { n: usize, a: usize, key: Vec<u8>, c: Option<usize>, ts: u64, kind: u8 },
     State { n: usize },
     Drop { n: usize },
     Import { n: usize, write: bool },
@@ -84,7 +87,8 @@ impl C14 {
             16 => Req::GetExact { n, a, key, incl: rng.chance(1, 2) },
             17 => Req::GetMany { n },
             18 => Req::SyncInit { n },
-            19..=20 => Req::State { n },
+            19 => Req::SyncProc { n, a, key, c: if rng.chance(1, 5) { None } else { Some(rng.below(3)) }, ts: *rng.pick(&[5u64, 9, 10]), kind: rng.below(2) as u8 },
+            20 => Req::State { n },
             21 => Req::Drop { n },
             22 => Req::Import { n, write: rng.chance(1, 2) },
             _ => Req::Export { n },
@@ -143,7 +147,11 @@ impl Property for C14 {
                     Req::Open { n: 0, sync: false, sub: false }, Req::Remote { n: 0, a: 0, key: b"k".to_vec(), c: Some(0), ts: 5 },
                     Req::SyncInit { n: 0 }, Req::Open { n: 0, sync: true, sub: false }, Req::Open { n: 0, sync: false, sub: false },
                     Req::State { n: 0 }, Req::Remote { n: 0, a: 0, key: b"k".to_vec(), c: Some(0), ts: 5 }, Req::SetSync { n: 0, sync: false },
-                    Req::Remote { n: 0, a: 0, key: b"j".to_vec(), c: Some(0), ts: 5 }, Req::GetMany { n: 0 },
+                    Req::Remote { n: 0, a: 0, key: b"j".to_vec(), c: Some(0), ts: 5 },
+                    Req::SyncProc { n: 0, a: 0, key: b"m".to_vec(), c: Some(1), ts: 9, kind: 0 }, Req::SyncProc { n: 0, a: 0, key: vec![], c: None, ts: 5, kind: 1 },
+                    Req::GetMany { n: 0 }, Req::SetSync { n: 0, sync: true },
+                    Req::SyncProc { n: 0, a: 1, key: b"m".to_vec(), c: Some(1), ts: 9, kind: 0 }, Req::SyncProc { n: 0, a: 0, key: vec![], c: None, ts: 5, kind: 1 },
+                    Req::GetMany { n: 0 },
                 ]] },
             ]),
             ("upgrade-while-open".into(), vec![
@@ -241,7 +249,7 @@ impl Property for C14 {
                                 // the clock is advanced under the log lock so that queue order = time order
                                 let ts = *clock.lock().unwrap(); // the clock stands still: outcomes depend on queue order only
                                 let e = make_entry(&namespaces[*n], &authors[*a], key, Some(*c), ts);
-                                log.lock().unwrap().push((ci, i, format!("act 1 localq {}", honest_tok(&e))));
+                                log.lock().unwrap().push((ci, i, format!("act 1 localq {}", honest_fp_tok(&e))));
                                 let (hash, len) = content(*c);
                                 match handle.insert_local(nsx(*n), authors[*a].id(), key.clone().into(), hash, len).await {
                                     Ok(()) => "inserted".into(), Err(e) => err_kind(&e) }
@@ -249,20 +257,20 @@ impl Property for C14 {
                             Req::Delete { n, a, key, .. } => {
                                 let ts = *clock.lock().unwrap(); // the clock stands still: outcomes depend on queue order only
                                 let e = make_entry(&namespaces[*n], &authors[*a], key, None, ts);
-                                log.lock().unwrap().push((ci, i, format!("act 1 local {}", honest_tok(&e))));
+                                log.lock().unwrap().push((ci, i, format!("act 1 local {}", honest_fp_tok(&e))));
                                 match handle.delete_prefix(nsx(*n), authors[*a].id(), key.clone().into()).await {
                                     Ok(k) => format!("inserted {k}"), Err(e) => err_kind(&e) }
                             }
                             Req::Remote { n, a, key, c, ts } => {
                                 let e = make_entry(&namespaces[*n], &authors[*a], key, *c, *ts);
-                                log.lock().unwrap().push((ci, i, format!("act 1 remoteq {} {} {}", nsh(*n), NOW, honest_tok(&e))));
+                                log.lock().unwrap().push((ci, i, format!("act 1 remoteq {} {} {}", nsh(*n), NOW, honest_fp_tok(&e))));
                                 match handle.insert_remote(nsx(*n), e, PEER, ContentStatus::Missing).await {
                                     Ok(()) => "inserted".into(), Err(e) => err_kind(&e) }
                             }
                             Req::GetExact { n, a, key, incl } => {
                                 log.lock().unwrap().push((ci, i, format!("act 1 getexact {} {} {} {}", nsh(*n), hex(authors[*a].id().as_bytes()), hex(key), *incl as u8)));
                                 match handle.get_exact(nsx(*n), authors[*a].id(), key.clone().into(), *incl).await {
-                                    Ok(Some(e)) => format!("some {}", stored_tok(&e)), Ok(None) => "none".into(), Err(e) => err_kind(&e) }
+                                    Ok(Some(e)) => format!("some {}", with_fp(stored_tok(&e), &e)), Ok(None) => "none".into(), Err(e) => err_kind(&e) }
                             }
                             Req::GetMany { n } => {
                                 log.lock().unwrap().push((ci, i, format!("act 1 getmany {}", nsh(*n))));
@@ -274,7 +282,7 @@ impl Property for C14 {
                                         let mut err = None;
                                         while let Ok(Some(item)) = rx.recv().await {
                                             match item {
-                                                Ok(e) => toks.push(stored_tok(&e)),
+                                                Ok(e) => toks.push(with_fp(stored_tok(&e), &e)),
                                                 Err(e) => { err = Some(err_kind(&anyhow::anyhow!("{e}"))); }
                                             }
                                         }
@@ -285,6 +293,27 @@ impl Property for C14 {
                             Req::SyncInit { n } => {
                                 log.lock().unwrap().push((ci, i, format!("act 1 syncinit {}", nsh(*n))));
                                 match handle.sync_initial_message(nsx(*n)).await { Ok(_) => "ok".into(), Err(e) => err_kind(&e) }
+                            }
+                            Req::SyncProc { n, a, key, c, ts, kind } => {
+                                let zero = iroh_docs::sync::RecordIdentifier::default();
+                                let range = MRange { x: zero.clone(), y: zero };
+                                let part = if *kind == 0 {
+                                    let e = make_entry(&namespaces[*n], &authors[*a], key, *c, *ts);
+                                    MPart::RangeItem(MItem { range, values: vec![(e, ContentStatus::Missing)], have_local: false })
+                                } else {
+                                    MPart::RangeFingerprint(MFp { range, fingerprint: [0u8; 32] })
+                                };
+                                let m = MMsg { parts: vec![part] };
+                                fn mtok(m: &MMsg) -> String {
+                                    let tok: EntryTok = &|e| with_fp(stored_tok(e), e);
+                                    msg_tok(m, tok)
+                                }
+                                log.lock().unwrap().push((ci, i, format!("act 1 syncproc {} {} {}", nsh(*n), NOW, mtok(&m))));
+                                let real = m.to_real().expect("message mirror");
+                                match handle.sync_process_message(nsx(*n), real, PEER, Default::default()).await {
+                                    Ok((reply, _)) => format!("reply {}", reply.map(|r| mtok(&MMsg::from_real(&r))).unwrap_or_else(|| "none".into())),
+                                    Err(e) => err_kind(&e),
+                                }
                             }
                             Req::State { n } => {
                                 log.lock().unwrap().push((ci, i, format!("act 1 state {}", nsh(*n))));
@@ -335,10 +364,10 @@ impl Property for C14 {
             // sync-gated requests succeed exactly while it is on
             let sync_obs: Option<(String, &str)> = match toks.get(2).copied() {
                 Some("state") => out.strip_prefix("state ").and_then(|r| r.split(' ').next()).map(|s| (toks[3].to_string(), if s == "1" { "1" } else { "0" })),
-                Some("remoteq") | Some("syncinit") => {
+                Some("remoteq") | Some("syncinit") | Some("syncproc") => {
                     if out == "err:sync-disabled" {
                         Some((toks[3].to_string(), "0"))
-                    } else if out == "inserted" || out == "notinserted" || out == "ok" {
+                    } else if out == "inserted" || out == "notinserted" || out == "ok" || out.starts_with("reply ") {
                         Some((toks[3].to_string(), "1"))
                     } else {
                         None
@@ -401,7 +430,8 @@ impl Property for C14 {
             v
         } {
             for e in store.get_many(ns, iroh_docs::store::Query::all().include_empty())? {
-                toks.push(stored_tok(&e?));
+                let e = e?;
+                toks.push(with_fp(stored_tok(&e), &e));
             }
         }
         lines.push(Line::model("adump 1", entries_line(&toks)));
